@@ -82,3 +82,7 @@ Definition is_prefix_l (h n : list N) : bool :=
 Fixpoint enumerate_from (i : N) (l : list N) : list (N * N) :=
   match l with [] => [] | b :: t => (i, b) :: enumerate_from (i + 1) t end.
 Definition enumerate_l (l : list N) : list (N * N) := enumerate_from 0 l.
+
+(* slice.get(n..) *)
+Definition slice_from_opt (l : list N) (n : N) : option (list N) :=
+  if n <=? N.of_nat (length l) then Some (skipn (N.to_nat n) l) else None.
